@@ -17,36 +17,45 @@ variable {σ α : Type}
 /-- **The strided index table is the ring window**: row `c`, column `j` is `(c - r + j) mod N`. -/
 theorem indexStrides_spec (N r c j : Nat) (h1 : 1 ≤ r) (h2 : r ≤ N) (hc : c < N) (hj : j < 2 * r + 1) :
     (indexStrides N r)[c]?.bind (·[j]?) = some ((c + j + N - r) % N) := by
-  sorry
+  rw [indexStrides_eq_ring N r h1 h2, List.getElem?_map, List.getElem?_range hc]
+  simp only [Option.map_some, Option.bind_some]
+  rw [List.getElem?_map, List.getElem?_range hj]
+  rfl
 
 theorem indexStrides_length (N r : Nat) (h1 : 1 ≤ r) (h2 : r ≤ N) :
     (indexStrides N r).length = N := by
-  sorry
+  rw [indexStrides_eq_ring N r h1 h2]; simp
 
 /-- **`cells[strides]` are the ring windows** of cells `0 .. N-1`, in order. -/
 theorem neighbourhoods_eq_windows [Inhabited α] (cells : List α) (r : Nat) (h1 : 1 ≤ r)
     (h2 : r ≤ cells.length) :
     neighbourhoods cells r = (List.range cells.length).map (window cells r) := by
-  sorry
+  exact neighbourhoods_eq_map_window cells r h1 h2
 
 theorem window_length [Inhabited α] (cells : List α) (r c : Nat) : (window cells r c).length = 2 * r + 1 := by
-  sorry
+  exact window_length' cells r c
 
 /-- The cell's own state sits in the middle of its window. -/
 theorem window_centre [Inhabited α] (cells : List α) (r c : Nat) (h2 : r ≤ cells.length) (hc : c < cells.length) :
     (window cells r c)[r]? = some cells[c]! := by
-  sorry
+  unfold window
+  rw [List.getElem?_map, List.getElem?_range (by omega)]
+  simp only [Option.map_some]
+  have : (c + r + cells.length - r) % cells.length = c := by
+    have : c + r + cells.length - r = c + cells.length := by omega
+    rw [this, Nat.add_mod_right, Nat.mod_eq_of_lt hc]
+  rw [this]
 
 /-- **One unmemoized step is the synchronous ring update**, for every stateful rule: the rule is
     consulted once per cell, cells ascending, with `(window, c, t)`, its state threaded in that order. -/
 theorem step1_plain_eq_spec [DecidableEq α] [Inhabited α] (rule : Rule1 σ α) (r : Nat) (cells : List α)
     (t : Nat) (cs : Caches α) (s : σ) (h1 : 1 ≤ r) (h2 : r ≤ cells.length) :
     step1 .plain rule r cells t cs s = ((step rule cells r t s).1, cs, (step rule cells r t s).2) := by
-  sorry
+  exact step1_plain rule r cells t cs s h1 h2
 
 theorem step_length [Inhabited α] (rule : Rule1 σ α) (cells : List α) (r t : Nat) (s : σ) :
     (step rule cells r t s).1.length = cells.length := by
-  sorry
+  exact spec_step_length rule cells r t s
 
 /-- **`evolve` with memoization off equals the specification run**: the given history followed by
     `T-1` synchronous ring updates with step numbers `1, 2, …`, for every stateful rule. -/
@@ -55,12 +64,16 @@ theorem evolveFixed_plain_eq_spec [DecidableEq α] [Inhabited α] (hist : List (
     (h1 : 1 ≤ r) (h2 : r ≤ init.length) (s : σ) :
     evolveFixed hist T rule r .plain s
       = .ok (hist ++ (run rule r (T - 1) 1 init s).1, (run rule r (T - 1) 1 init s).2) := by
-  sorry
+  unfold evolveFixed
+  rw [hlast]
+  have hT0 : ¬ T = 0 := by omega
+  simp only [hT0, if_false, reduceCtorEq, and_false]
+  rw [fixedLoop_plain rule r h1 (T - 1) 1 init Caches.empty s h2]
 
 /-- Every new row has `N` cells and there are exactly `T-1` of them. -/
 theorem run_shape [Inhabited α] (rule : Rule1 σ α) (r k t : Nat) (cells : List α) (s : σ) :
     (run rule r k t cells s).1.length = k ∧ ∀ row ∈ (run rule r k t cells s).1, row.length = cells.length := by
-  sorry
+  exact ⟨run_length rule r k t cells s, run_row_length rule r k t cells s⟩
 
 /-- **The call trace**: instrumenting any rule with a recorder, the recorded calls of a run are
     exactly one per cell per step — cells in ascending order, steps in ascending order starting at
@@ -71,13 +84,13 @@ theorem run_logged [Inhabited α] (rule : Rule1 σ α) (r k t : Nat) (cells : Li
     run (logged rule) r k t cells (s, log)
       = ((run rule r k t cells s).1,
          ((run rule r k t cells s).2, log ++ callsOfRows r t cells (run rule r k t cells s).1)) := by
-  sorry
+  exact run_logged' rule r k t cells s log
 
 /-- Number of rule invocations: exactly `N · k` for `k` steps. -/
 theorem callsOfRows_length [Inhabited α] (r t : Nat) (cells : List α) (rows : List (List α))
     (h : ∀ row ∈ rows, row.length = cells.length) :
     (callsOfRows r t cells rows).length = cells.length * rows.length := by
-  sorry
+  exact callsOfRows_length' r t cells rows h
 
 /-! ## Guard witnesses: outside `1 ≤ r ≤ N` the construction is not the ring window -/
 
